@@ -455,6 +455,44 @@ def run(ctx):
         except Exception as e:
             ctx.fail(case, 'the assertion raised %s: %s instead of passing / failing' % (type(e).__name__, str(e)[:150]),
                      finding='c05-object-na' if has_object_na(act, ref) else None)
+    # ---- one reference file compared several times in one process (a sorted comparison first): every comparison
+    # judges the file as it is on disk, not as an earlier comparison left it in memory
+    for it in range(6 if ctx.quick else 60):
+        n = rng.randint(3, 6)
+        keys = rng.sample(range(100), n)
+        ref = pd.DataFrame({'key': keys, 'v': [rng.choice([1.5, 2.25, 7.0]) for _ in keys], 's': ['r%d' % k for k in keys]})
+        if sorted(keys) == keys:
+            continue
+        fmt = rng.choice(['parquet', 'csv'])
+        rp = os.path.join(tmp, 'twice%d.%s' % (it, fmt))
+        perm = ref.sample(frac=1.0, random_state=it).reset_index(drop=True)
+        if list(perm['key']) == keys:
+            perm = ref.iloc[::-1].reset_index(drop=True)
+        paths = {}
+        for nm, fr in (('ref', ref), ('copy', ref), ('perm', perm)):
+            pth = rp if nm == 'ref' else os.path.join(tmp, 'twice%d-%s.%s' % (it, nm, fmt))
+            (fr.to_parquet(pth) if fmt == 'parquet' else fr.to_csv(pth, index=False))
+            paths[nm] = pth
+        case = {'scenario': 'same reference file compared three times', 'format': fmt, 'keys': keys}
+        ctx.count(repr(case), True)
+        ctx.bump('same_reference_several_times')
+        steps = [('permuted rows, sortby key', paths['perm'], {'sortby': ['key']}, True),
+                 ('identical copy, no sortby', paths['copy'], {}, True),
+                 ('permuted rows, no sortby', paths['perm'], {}, False)]
+        for what, ap, kw_, want in steps:
+            try:
+                with contextlib.redirect_stdout(io.StringIO()):
+                    rt.assertOnDiskDataFrameCorrect(ap, rp, **kw_)
+                got = True
+            except AssertFail:
+                got = False
+            except Exception as e:
+                ctx.fail(dict(case, step=what), 'the assertion raised %s: %s' % (type(e).__name__, str(e)[:150]))
+                break
+            if got != want:
+                ctx.fail(dict(case, step=what), 'step "%s" after the earlier comparisons %s, it should %s'
+                         % (what, 'passes' if got else 'fails', 'pass' if want else 'fail'))
+                break
     shutil.rmtree(tmp, ignore_errors=True)
     ctx.cov['rule'] = ('reference frames over 12 dtypes (nulls, inf, categoricals, extension types, non-string column names) x '
                        'one mutation (cell beyond / within precision, rename, retype, move, drop, extra, row drop/add, none) x '
